@@ -79,7 +79,8 @@ class NoiseModelFromNoiseProperties(devices.NoiseModel):
         # Split multi-qubit measurements into single-qubit measurements.
         # These will be recombined after noise is applied.
         split_measure_moments = []
-        multi_measurements = {}
+        # (a key can be measured more than once: the measurements of a key are kept in order)
+        multi_measurements: dict[cirq.MeasurementKey, list[cirq.Operation]] = {}
         for moment in moments:
             split_measure_ops = []
             for op in moment:
@@ -87,7 +88,7 @@ class NoiseModelFromNoiseProperties(devices.NoiseModel):
                     split_measure_ops.append(op)
                     continue
                 m_key = protocols.measurement_key_obj(op)
-                multi_measurements[m_key] = op
+                multi_measurements.setdefault(m_key, []).append(op)
                 for q in op.qubits:
                     split_measure_ops.append(ops.measure(q, key=m_key))
             split_measure_moments.append(circuits.Moment(split_measure_ops))
@@ -121,14 +122,14 @@ class NoiseModelFromNoiseProperties(devices.NoiseModel):
         final_moments = []
         for moment in noisy_circuit:
             combined_measure_ops = []
-            restore_keys = set()
+            restore_keys: dict[cirq.MeasurementKey, None] = {}
             for op in moment:
                 if not protocols.is_measurement(op):
                     combined_measure_ops.append(op)
                     continue
-                restore_keys.add(protocols.measurement_key_obj(op))
+                restore_keys[protocols.measurement_key_obj(op)] = None
             for key in restore_keys:
-                combined_measure_ops.append(multi_measurements[key])
+                combined_measure_ops.append(multi_measurements[key].pop(0))
             final_moments.append(circuits.Moment(combined_measure_ops))
         return final_moments
 
